@@ -121,7 +121,7 @@ class Harness(cm.BaseB):
         ninit = len(initial_classes(kind, R, C))
         for li in range(len(LIMITS_C)):
             for ii in range(ninit):
-                for ni in range(9):
+                for ni in range(10):
                     yield {"k": "prod", "kind": kind, "R": R, "C": C, "lim": li, "init": ii, "names": ni}
 
     def one(self, case):
@@ -295,6 +295,13 @@ class Harness(cm.BaseB):
                 # an empty string (a blank spreadsheet cell) is a name too
                 names = {well_id(*sorted(empty)[-1]): ""} if empty else None
                 names_ok = not empty
+            elif ni == 9:
+                # well IDs are upper-case: a lower-case key names no well (also next to the real key)
+                some = sorted(filled)[:1]
+                names = {well_id(r, c).lower(): "lower" for r, c in some} or {"a01": "lower"}
+                if some and (some[0][0] + some[0][1]) % 2:
+                    names[well_id(*some[0])] = "proper"
+                names_ok = False
             elif ni == 8:
                 # keys that look like a well of the labware but are not its canonical ID (A1, A001, full-width digit)
                 r0, c0 = sorted(filled)[0] if filled else (0, 0)
@@ -333,7 +340,7 @@ class Harness(cm.BaseB):
             elif ni == 6:
                 names = ["" if not cols_filled[c] else None for c in range(C)]
                 names_ok = all(cols_filled)
-            elif ni in (7, 8):
+            elif ni in (7, 8, 9):
                 names = None  # (column names are positional: no keys)
             else:
                 names = [None] * (C - 1) if C > 1 else [None, None]
